@@ -39,6 +39,16 @@ func CalleeName(c *ssa.CallCommon) string {
 		return "closure:" + FuncName(v.Fn.(*ssa.Function))
 	case *ssa.Builtin:
 		return "builtin:" + v.Name()
+	case *ssa.UnOp:
+		// a call through a seam variable (var timeNow = time.Now)
+		if t := seamTarget(v); t != nil {
+			if t.Object() != nil {
+				if f, ok := t.Object().(*types.Func); ok {
+					return canonFullName(f)
+				}
+			}
+			return "closure:" + FuncName(t)
+		}
 	}
 	return ""
 }
@@ -84,6 +94,8 @@ func StaticFunc(c *ssa.CallCommon) *ssa.Function {
 		return v
 	case *ssa.MakeClosure:
 		return v.Fn.(*ssa.Function)
+	case *ssa.UnOp:
+		return seamTarget(v)
 	}
 	return nil
 }
@@ -341,6 +353,10 @@ type Walk struct {
 	// Ctx: the function under analysis. A walk that starts inside a new helper
 	// continues only after the helper's call sites inside Ctx (nil: all sites).
 	Ctx *ssa.Function
+	// Local: the function the walk starts in is the function under analysis even if it
+	// is a new helper: its own returns can be targets and the walk does not continue
+	// after its call sites.
+	Local bool
 
 	leftVia   []*ssa.Return // returns of the start function reached by the last search
 	innerRets []*ssa.Return // returns of the helper currently being entered
@@ -372,7 +388,7 @@ func (w *Walk) search(b0 *ssa.BasicBlock, idx0 int) (ssa.Instruction, []*ssa.Bas
 	// the walk started inside a new helper and can leave it: continue after its call
 	// sites, knowing the constant results of the returns through which it left
 	// (`return "", false` makes the caller's `if !ok` decidable)
-	if reachedReturn {
+	if reachedReturn && !w.Local {
 		if info := helperOf(b0.Parent()); info != nil {
 			rets := w.leftVia
 			for _, s := range info.sites {
@@ -490,7 +506,7 @@ func (w *Walk) searchIn(b0 *ssa.BasicBlock, idx0 int, depth int) (ssa.Instructio
 		}
 		for k := start; k < len(n.b.Instrs); k++ {
 			in := n.b.Instrs[k]
-			if rt, isRet := in.(*ssa.Return); isRet && helperOf(in.Parent()) != nil {
+			if rt, isRet := in.(*ssa.Return); isRet && helperOf(in.Parent()) != nil && !(w.Local && depth == 0) {
 				// the return of a spliced helper is not an exit of the function under analysis
 				reachedReturn = true
 				if depth == 0 {
@@ -939,7 +955,7 @@ func AccessPath(v ssa.Value) (string, bool) {
 		if x.Op == token.MUL {
 			if fa, ok := x.X.(*ssa.FieldAddr); ok {
 				b, ok := AccessPath(fa.X)
-				return b + "." + fieldName(fa.X.Type(), fa.Field), ok
+				return fieldStep(b, fa.X, fa.Field, ""), ok
 			}
 			if cell := resolveCell(x.X); cell != nil {
 				if isLocalCell(cell) {
@@ -965,10 +981,10 @@ func AccessPath(v ssa.Value) (string, bool) {
 		}
 	case *ssa.Field:
 		b, ok := AccessPath(x.X)
-		return b + "." + fieldName(x.X.Type(), x.Field), ok
+		return fieldStep(b, x.X, x.Field, ""), ok
 	case *ssa.FieldAddr:
 		b, ok := AccessPath(x.X)
-		return "&" + b + "." + fieldName(x.X.Type(), x.Field), ok
+		return fieldStep(b, x.X, x.Field, "&"), ok
 	case *ssa.Extract:
 		switch t := x.Tuple.(type) {
 		case *ssa.Call:
@@ -1083,11 +1099,18 @@ func CallResult(v ssa.Value, idx int, names ...string) *ssa.Call {
 	var call *ssa.Call
 	switch x := v.(type) {
 	case *ssa.Extract:
-		if x.Index != idx {
-			return nil
-		}
 		c, ok := x.Tuple.(*ssa.Call)
 		if !ok {
+			return nil
+		}
+		// idx is a position of the callee's pinned result list
+		want := idx
+		if f := StaticFunc(c.Common()); f != nil && f.Parent() == nil {
+			if obj, isF := f.Object().(*types.Func); isF {
+				want = pinnedResultIndex(obj, idx)
+			}
+		}
+		if x.Index != want {
 			return nil
 		}
 		call = c
@@ -1132,7 +1155,7 @@ func Eval(v ssa.Value, env Env) (constant.Value, bool) {
 	case *ssa.Call:
 		// a new helper with one return value: evaluate what it returns (its
 		// parameters are looked up through env, then through the call's arguments)
-		if h, ok := x.Call.Value.(*ssa.Function); ok && IsNewHelper(h) && x.Call.Signature().Results().Len() == 1 {
+		if h, ok := calleeFn(x.Call.Value); ok && IsNewHelper(h) && x.Call.Signature().Results().Len() == 1 {
 			if rs := helperResults(x, 0); len(rs) == 1 {
 				inner := func(u ssa.Value) (constant.Value, bool) {
 					if env != nil {
@@ -1521,6 +1544,15 @@ func DerivesFrom(v ssa.Value, isSource, isSanitizer func(ssa.Value) bool) (reach
 // defer-spilled form (go/ssa stores results to locals before rundefers and
 // reloads them).
 func ReturnValue(r *ssa.Return, idx int) ssa.Value {
+	// idx is a position of the pinned result list
+	if fn := r.Parent(); fn != nil && fn.Parent() == nil {
+		if obj, ok := fn.Object().(*types.Func); ok {
+			idx = pinnedResultIndex(obj, idx)
+		}
+	}
+	if idx < 0 || idx >= len(r.Results) {
+		return nil
+	}
 	v := r.Results[idx]
 	u, ok := v.(*ssa.UnOp)
 	if !ok || u.Op != token.MUL {
@@ -1770,7 +1802,7 @@ func Conjuncts(v ssa.Value, depth int) []ssa.Value {
 	}
 	switch x := v.(type) {
 	case *ssa.Call:
-		if h, ok := x.Call.Value.(*ssa.Function); ok && IsNewHelper(h) && x.Call.Signature().Results().Len() == 1 {
+		if h, ok := calleeFn(x.Call.Value); ok && IsNewHelper(h) && x.Call.Signature().Results().Len() == 1 {
 			if rs := helperResults(x, 0); len(rs) == 1 {
 				out = append(out, Conjuncts(rs[0], depth+1)...)
 			}
@@ -1892,4 +1924,60 @@ func pathCallee(name string) string {
 		return "net/http.NewRequest"
 	}
 	return name
+}
+
+// fieldStep renders base.field, looking through *grouping*: a struct type that does not
+// exist in the pinned tree only bundles values that used to be parameters, captured
+// variables or fields of their own.
+//   - a field whose type is a new struct type is not a step of its own
+//     (c.cfg.sessionCookieName reads as c.sessionCookieName);
+//   - a parameter or captured variable of a new struct type is not a root of its own
+//     (cfg.host of `func f(ctx, cfg shimConfig)` reads as the parameter host).
+//
+// Paths are compared with the roles they had in the pinned tree, so a grouped value keeps
+// its role as long as it keeps its name.
+func fieldStep(base string, baseVal ssa.Value, idx int, addr string) string {
+	name := fieldName(baseVal.Type(), idx)
+	st := structOf(baseVal.Type())
+	if st != nil && idx < st.NumFields() {
+		ft := st.Field(idx).Type()
+		if IsNewType(ft) && structOf(ft) != nil {
+			return base // the grouping field itself
+		}
+	}
+	if IsNewType(baseVal.Type()) && st != nil {
+		switch r := Peel(baseVal).(type) {
+		case *ssa.Parameter:
+			if base == "param:"+r.Name() {
+				return "param:" + name
+			}
+		case *ssa.FreeVar:
+			if base == "captured:"+r.Name() {
+				return "captured:" + name
+			}
+		}
+		// a spilled parameter (&cfg of a by-value struct parameter)
+		if strings.HasPrefix(base, "local:") || strings.HasPrefix(base, "&local:") {
+			if al, isA := Peel(baseVal).(*ssa.Alloc); isA {
+				if sts := storesTo(al); len(sts) == 1 {
+					if prm, isP := sts[0].(*ssa.Parameter); isP && IsNewType(prm.Type()) {
+						return "param:" + name
+					}
+				}
+			}
+		}
+	}
+	return addr + base + "." + name
+}
+
+func structOf(t types.Type) *types.Struct {
+	for {
+		if p, ok := t.Underlying().(*types.Pointer); ok {
+			t = p.Elem()
+			continue
+		}
+		break
+	}
+	st, _ := t.Underlying().(*types.Struct)
+	return st
 }
